@@ -70,7 +70,7 @@ struct SplineIO {
 };
 
 inline const char* const kSplineFn[] = {"eval", "eval_vel", "eval_vel_acc", "crop", "arclength", "info", "copy_concat",
-                                        "eval_many", "crop_degenerate", "arclength_many", "reparameterize"};
+                                        "eval_many", "crop_degenerate", "arclength_many", "reparameterize", "factories"};
 constexpr int kSplineNFn = sizeof(kSplineFn) / sizeof(kSplineFn[0]);
 
 template<int K, class G, class Tag>
@@ -159,6 +159,16 @@ struct SplineOps {
           out.tag("n/a");
         }
         break;
+      case 11: {
+        // static factory functions, fed from shared const end points
+        const G ga = sp.start(), gb = sp.end();
+        put_spline(out, Sp::ConstantVelocityGoal(gb, 1.5, ga));
+        put_spline(out, Sp::ConstantVelocity(smooth::rminus(gb, ga), 0.7, ga));
+        if constexpr (K == 3) { put_spline(out, Sp::FixedCubic(gb, T::Constant(0.1), T::Constant(-0.2), 2.0, ga)); }
+        Sp e;  // default: empty spline at identity
+        put_spline(out, e);
+        break;
+      }
       case 10: {
         // time scaling under velocity / acceleration bounds: one LP per sample, sized by Dof<G>
         const T vmax = T::Constant(1.0), amax = T::Constant(1.5);
